@@ -72,12 +72,16 @@ type c10Val struct {
 	B     bool
 	Elems []*c10Val // tuple / record fields / union payload (0 or 1) / slice elements
 	Case  int
-	Path  string // slices: literal new take skip filter
+	Path  string // slices: the library path chosen when the expression was printed
+	Nil   bool   // slices: the printed expression yields a nil slice (set by fo)
+	Force string // slices: use this path (corpus)
+	Ref   string // the value is denoted by this expression (a variable, or a slice derived from one)
 }
 
 type c10Env struct {
-	named []*c10Type // declared records and unions, in order
-	preds map[string]*c10Type
+	named   []*c10Type // declared records and unions, in order
+	preds   map[string]*c10Type
+	holders []*c10Type // comparable types holding a union whose case carries a slice
 }
 
 func c10GenType(r *Rng, env *c10Env, depth int) *c10Type {
@@ -102,6 +106,9 @@ func c10GenType(r *Rng, env *c10Env, depth int) *c10Type {
 		if len(env.named) > 0 {
 			return Choose(r, env.named)
 		}
+	case 7:
+		// a slice of pairs: reachable through slice.Zip and dict.KVs
+		return &c10Type{Kind: "slice", Elems: []*c10Type{{Kind: "tuple", Elems: []*c10Type{Choose(r, base), c10GenType(r, env, depth-1)}}}}
 	}
 	return Choose(r, base)
 }
@@ -137,6 +144,14 @@ func c10GenEnv(r *Rng, prog int, n int) *c10Env {
 			env.named = append(env.named, t)
 		}
 	}
+	// a union whose case carries a slice, and holders of it without any slice-typed sibling: the
+	// holder types are comparable for Go's ==, the stored case is not
+	ug := &c10Type{Kind: "union", Name: fmt.Sprintf("UG%d", prog), Cases: []string{fmt.Sprintf("GA%d", prog), fmt.Sprintf("GB%d", prog), fmt.Sprintf("GC%d", prog)},
+		Elems: []*c10Type{{Kind: "slice", Elems: []*c10Type{{Kind: "int"}}}, nil, {Kind: "int"}}}
+	rg := &c10Type{Kind: "record", Name: fmt.Sprintf("RG%d", prog), Fields: []string{fmt.Sprintf("n_g%d", prog), fmt.Sprintf("U_g%d", prog)},
+		Elems: []*c10Type{{Kind: "int"}, ug}}
+	env.named = append(env.named, ug, rg)
+	env.holders = []*c10Type{rg, {Kind: "tuple", Elems: []*c10Type{{Kind: "int"}, ug}}, {Kind: "tuple", Elems: []*c10Type{{Kind: "string"}, rg, {Kind: "bool"}}}}
 	return env
 }
 
@@ -166,10 +181,11 @@ func (env *c10Env) decls() string {
 
 func (env *c10Env) predDecls(used map[string]*c10Type) string {
 	var b strings.Builder
-	b.WriteString("let keepI (x:int) = x < 1000\n\n")
+	b.WriteString("let keepI (x:int) = x < 1000\n\nlet idI (x:int) = x\n\n")
 	for _, k := range SortedKeys(used) {
 		t := used[k]
 		fmt.Fprintf(&b, "let keepAll_%s (x:%s) = true\n\nlet dropAll_%s (x:%s) = false\n\n", k, t.fo(), k, t.fo())
+		fmt.Fprintf(&b, "let second_%s (i:int) (x:%s) = x\n\nlet none_%s (x:int) = slice.New<%s> ()\n\n", k, t.fo(), k, t.fo())
 	}
 	return b.String()
 }
@@ -208,46 +224,19 @@ func c10GenVal(r *Rng, t *c10Type, depth int) *c10Val {
 		for i := 0; i < n; i++ {
 			v.Elems = append(v.Elems, c10GenVal(r, t.Elems[0], depth-1))
 		}
-		c10PickPath(r, v)
 	}
 	return v
 }
 
-func c10PickPath(r *Rng, v *c10Val) {
-	var ps []string
-	if len(v.Elems) == 0 {
-		ps = []string{"take", "skip", "filter"}
-		if v.T.Elems[0].simpleName() {
-			ps = append(ps, "new", "new")
-		}
-	} else {
-		ps = []string{"literal", "literal", "take", "skip"}
-		if v.T.Elems[0].simpleName() {
-			ps = append(ps, "filter")
-		}
-	}
-	if !v.T.Elems[0].simpleName() {
-		// the predicate needs a parameter annotation: only for types with a simple spelling
-		for i := 0; i < len(ps); i++ {
-			if ps[i] == "filter" {
-				ps = append(ps[:i], ps[i+1:]...)
-				i--
-			}
-		}
-	}
-	v.Path = Choose(r, ps)
-}
-
-// a copy with the same structure and contents, slices rebuilt by freshly chosen paths
+// a copy with the same structure and contents; its slices are rebuilt by freshly chosen library
+// paths when it is printed
 func c10Repath(r *Rng, v *c10Val) *c10Val {
 	w := *v
 	w.Elems = nil
 	for _, e := range v.Elems {
 		w.Elems = append(w.Elems, c10Repath(r, e))
 	}
-	if v.T.Kind == "slice" {
-		c10PickPath(r, &w)
-	}
+	w.Path, w.Nil, w.Force, w.Ref = "", false, "", ""
 	return &w
 }
 
@@ -279,7 +268,6 @@ func c10Mutate(r *Rng, v *c10Val) *c10Val {
 			i := r.Intn(len(w.Elems))
 			w.Elems[i] = c10Mutate(r, v.Elems[i])
 		}
-		c10PickPath(r, w)
 	}
 	return w
 }
@@ -343,7 +331,34 @@ func (v *c10Val) fo(r *Rng, used map[string]*c10Type, nested bool) string {
 		return paren(v.T.Cases[v.Case] + " " + v.Elems[0].fo(r, used, true))
 	}
 	// slice
-	et := v.T.Elems[0]
+	if v.Ref != "" {
+		return v.Ref
+	}
+	e, isNil, path := c10SliceFo(r, used, v.T, v.Elems, 2, v.Force)
+	v.Path, v.Nil = path, isNil
+	c10PathCount[path]++
+	return e
+}
+
+var c10PathCount = map[string]int{}
+
+func c10Less(a, b *c10Val) bool {
+	if a.T.Kind == "string" {
+		return a.S < b.S
+	}
+	return a.I < b.I
+}
+
+func c10Same(a, b *c10Val) bool { return a.I == b.I && a.S == b.S && a.B == b.B }
+
+// c10SliceFo prints an expression whose value is the slice with the elements elems, built by a
+// randomly chosen library path (force != "": that path), and tells whether the result is a nil
+// slice on the unchanged library. Composite paths build their operands by further paths.
+func c10SliceFo(r *Rng, used map[string]*c10Type, t *c10Type, elems []*c10Val, depth int, force string) (string, bool, string) {
+	et := t.Elems[0]
+	n := len(elems)
+	simple := et.simpleName()
+	base := et.Kind == "int" || et.Kind == "string" || et.Kind == "bool"
 	lit := func(vs []*c10Val) string {
 		var xs []string
 		for _, e := range vs {
@@ -351,43 +366,207 @@ func (v *c10Val) fo(r *Rng, used map[string]*c10Type, nested bool) string {
 		}
 		return "[" + strings.Join(xs, "; ") + "]"
 	}
-	extra := func(n int) []*c10Val {
+	extra := func(k int) []*c10Val {
 		var xs []*c10Val
-		for i := 0; i < n; i++ {
+		for i := 0; i < k; i++ {
 			xs = append(xs, c10GenVal(r, et, 1))
 		}
 		return xs
 	}
-	switch v.Path {
+	cat := func(a, b []*c10Val) []*c10Val { return append(append([]*c10Val{}, a...), b...) }
+	// an operand slice of type st with the given elements
+	subT := func(st *c10Type, vs []*c10Val) (string, bool) {
+		if depth <= 0 {
+			if len(vs) > 0 {
+				e, nl, _ := c10SliceFo(r, used, st, vs, 0, "literal")
+				return e, nl
+			}
+			if st.Elems[0].simpleName() {
+				e, nl, _ := c10SliceFo(r, used, st, vs, 0, "new")
+				return e, nl
+			}
+			e, nl, _ := c10SliceFo(r, used, st, vs, 0, "take")
+			return e, nl
+		}
+		e, nl, p := c10SliceFo(r, used, st, vs, depth-1, "")
+		c10PathCount["operand:"+p]++
+		return e, nl
+	}
+	sub := func(vs []*c10Val) (string, bool) { return subT(t, vs) }
+	sorted, distinct := true, true
+	for i := 1; i < n; i++ {
+		if c10Less(elems[i], elems[i-1]) {
+			sorted = false
+		}
+	}
+	for i := 0; i < n; i++ {
+		for j := 0; j < i; j++ {
+			if c10Same(elems[i], elems[j]) {
+				distinct = false
+			}
+		}
+	}
+	ordered := et.Kind == "int" || et.Kind == "string"
+	pair := et.Kind == "tuple" && len(et.Elems) == 2
+	keyable := func(k *c10Type) bool { return k.Kind == "int" || k.Kind == "string" || k.Kind == "bool" }
+	ps := []string{"take", "skip", "tail", "poplast", "pushpop", "append", "concat", "map", "collect"}
+	if n > 0 {
+		ps = append(ps, "literal", "literal", "pushlast", "pushhead")
+	}
+	if simple {
+		ps = append(ps, "filter", "mapi")
+		if n == 0 {
+			ps = append(ps, "new", "empty", "collectnone", "dictvalues")
+		}
+	}
+	if n == 1 {
+		ps = append(ps, "dictvalues")
+	}
+	if pair {
+		ps = append(ps, "zip")
+		if keyable(et.Elems[0]) && (n == 1 || n == 0 && et.Elems[0].simpleName() && et.Elems[1].simpleName()) {
+			ps = append(ps, "dictkvs")
+		}
+	}
+	if ordered && sorted {
+		ps = append(ps, "sort")
+		if et.Kind == "int" {
+			ps = append(ps, "sortby")
+		}
+	}
+	if base && distinct {
+		ps = append(ps, "distinct")
+	}
+	if ordered && n <= 1 {
+		ps = append(ps, "dictkeys")
+	}
+	path := Choose(r, ps)
+	if force != "" {
+		path = force
+	}
+	call := func(f string, a ...any) string { return "(" + fmt.Sprintf(f, a...) + ")" }
+	switch path {
 	case "literal":
-		return lit(v.Elems)
+		return lit(elems), false, path
 	case "new":
-		return paren("slice.New<" + et.fo() + "> ()")
+		return call("slice.New<%s> ()", et.fo()), false, path
+	case "empty":
+		return call("frt.Empty<%s> ()", t.fo()), true, path
 	case "take":
-		return paren(fmt.Sprintf("slice.Take %d %s", len(v.Elems), lit(append(append([]*c10Val{}, v.Elems...), extra(1+r.Intn(2))...))))
+		return call("slice.Take %d %s", n, lit(cat(elems, extra(1+r.Intn(2))))), n == 0, path
 	case "skip":
 		k := 1 + r.Intn(2)
-		return paren(fmt.Sprintf("slice.Skip %d %s", k, lit(append(extra(k), v.Elems...))))
+		return call("slice.Skip %d %s", k, lit(cat(extra(k), elems))), n == 0, path
 	case "filter":
-		if et.Kind == "int" && len(v.Elems) > 0 {
+		if et.Kind == "int" && n > 0 {
 			// keepI drops the markers >= 1000 interleaved with the elements
 			var xs []*c10Val
-			for _, e := range v.Elems {
+			for _, e := range elems {
 				if r.Chance(1, 3) {
 					xs = append(xs, &c10Val{T: et, I: 1000 + r.Intn(5)})
 				}
 				xs = append(xs, e)
 			}
 			xs = append(xs, &c10Val{T: et, I: 1001})
-			return paren("slice.Filter keepI " + lit(xs))
+			return call("slice.Filter keepI %s", lit(xs)), false, path
 		}
 		used[et.mangle()] = et
-		if len(v.Elems) == 0 {
-			return paren(fmt.Sprintf("slice.Filter dropAll_%s %s", et.mangle(), lit(extra(1))))
+		if n == 0 {
+			return call("slice.Filter dropAll_%s %s", et.mangle(), lit(extra(1))), true, path
 		}
-		return paren(fmt.Sprintf("slice.Filter keepAll_%s %s", et.mangle(), lit(v.Elems)))
+		e, _ := sub(elems)
+		return call("slice.Filter keepAll_%s %s", et.mangle(), e), false, path
+	case "tail":
+		e, _ := sub(cat(extra(1), elems))
+		return call("slice.Tail %s", e), false, path
+	case "poplast":
+		e, _ := sub(cat(elems, extra(1)))
+		return call("slice.PopLast %s", e), false, path
+	case "pushlast":
+		e, _ := sub(elems[:n-1])
+		return call("slice.PushLast %s %s", elems[n-1].fo(r, used, true), e), false, path
+	case "pushhead":
+		e, _ := sub(elems[1:])
+		return call("slice.PushHead %s %s", elems[0].fo(r, used, true), e), false, path
+	case "pushpop":
+		e, _ := sub(elems)
+		return call("slice.PopLast (slice.PushLast %s %s)", extra(1)[0].fo(r, used, true), e), false, path
+	case "append":
+		k := r.Intn(n + 1)
+		e1, _ := sub(elems[:k])
+		e2, _ := sub(elems[k:])
+		return call("slice.Append %s %s", e1, e2), n == 0, path
+	case "concat", "collect":
+		k := r.Intn(n + 1)
+		var pieces []string
+		for _, part := range [][]*c10Val{elems[:k], elems[k:]} {
+			e, _ := sub(part)
+			pieces = append(pieces, e)
+		}
+		if r.Chance(1, 3) {
+			e, _ := sub(nil)
+			pieces = append(pieces, e)
+		}
+		if path == "concat" {
+			return call("slice.Concat [%s]", strings.Join(pieces, "; ")), n == 0, path
+		}
+		return call("slice.Collect (fun x -> x) [%s]", strings.Join(pieces, "; ")), n == 0, path
+	case "collectnone":
+		used[et.mangle()] = et
+		return call("slice.Collect none_%s [1; 2]", et.mangle()), true, path
+	case "map":
+		e, _ := sub(elems)
+		return call("slice.Map (fun x -> x) %s", e), n == 0, path
+	case "mapi":
+		used[et.mangle()] = et
+		e, _ := sub(elems)
+		return call("slice.Mapi second_%s %s", et.mangle(), e), n == 0, path
+	case "zip":
+		t0 := &c10Type{Kind: "slice", Elems: []*c10Type{et.Elems[0]}}
+		t1 := &c10Type{Kind: "slice", Elems: []*c10Type{et.Elems[1]}}
+		var xs, ys []*c10Val
+		for _, e := range elems {
+			xs = append(xs, e.Elems[0])
+			ys = append(ys, e.Elems[1])
+		}
+		e0, _ := subT(t0, xs)
+		e1, _ := subT(t1, ys)
+		return call("slice.Zip %s %s", e0, e1), n == 0, path
+	case "sort", "sortby":
+		sh := append([]*c10Val{}, elems...)
+		for i := len(sh) - 1; i > 0; i-- {
+			j := r.Intn(i + 1)
+			sh[i], sh[j] = sh[j], sh[i]
+		}
+		e, nl := sub(sh)
+		if path == "sort" {
+			return call("slice.Sort %s", e), n == 0 && nl, path
+		}
+		return call("slice.SortBy idI %s", e), n == 0 && nl, path
+	case "distinct":
+		in := append([]*c10Val{}, elems...)
+		for i := 0; n > 0 && i < r.Intn(3); i++ {
+			in = append(in, elems[r.Intn(n)])
+		}
+		e, _ := sub(in)
+		return call("slice.Distinct %s", e), false, path
+	case "dictkeys":
+		if n == 0 {
+			return call("dict.Keys (dict.New<%s, int> ())", et.fo()), true, path
+		}
+		return call("dict.Keys (dict.ToDict [(%s, %d)])", elems[0].fo(r, used, true), r.Intn(9)), false, path
+	case "dictvalues":
+		if n == 0 {
+			return call("dict.Values (dict.New<int, %s> ())", et.fo()), true, path
+		}
+		return call("dict.Values (dict.ToDict [(%d, %s)])", r.Intn(9), elems[0].fo(r, used, true)), false, path
+	case "dictkvs":
+		if n == 0 {
+			return call("dict.KVs (dict.New<%s, %s> ())", et.Elems[0].fo(), et.Elems[1].fo()), true, path
+		}
+		return call("dict.KVs (dict.ToDict [%s])", elems[0].fo(r, used, true)), false, path
 	}
-	panic("path " + v.Path)
+	panic("path " + path)
 }
 
 // the Go representation fc and the library produce, as the model's s-expression
@@ -418,9 +597,10 @@ func (v *c10Val) sexp() string {
 	case "union":
 		return fmt.Sprintf("(union %s %s%s)", Sq(v.T.Name), Sq(v.T.Cases[v.Case]), tail)
 	}
-	// nil: a result slice that was never appended to (Take 0, Skip of everything, Filter of nothing)
+	// nil: a result slice that was never appended to (Take 0, Skip of everything, Filter of nothing,
+	// Collect/Concat/Append/Map of nothing, the keys of an empty dict, frt.Empty ...); set by fo
 	rep := "non"
-	if len(v.Elems) == 0 && v.Path != "new" {
+	if v.Nil {
 		rep = "nil"
 	}
 	return "(slice " + rep + tail + ")"
@@ -430,6 +610,7 @@ type c10Group struct {
 	Idx     int
 	T       *c10Type
 	A, B, C *c10Val
+	Kind    string // paths | derived | holder
 	Src     string // the function cmp<Idx>
 }
 
@@ -442,15 +623,15 @@ const c10CallBudget = 45
 func c10GenGroup(r *Rng, env *c10Env, idx int, used map[string]*c10Type) *c10Group {
 	for depth := 3; ; depth-- {
 		g := c10GenGroupAt(r, env, idx, used, depth)
-		if strings.Count(g.Src, "slice.") <= c10CallBudget || depth < -3 {
+		if strings.Count(g.Src, "slice.")+strings.Count(g.Src, "dict.")+strings.Count(g.Src, "frt.Empty") <= c10CallBudget || depth < -3 {
 			return g
 		}
 	}
 }
 
-func c10CmpSrc(idx int, a, b, cc string) string {
+func c10CmpSrc(idx int, prelude, a, b, cc string) string {
 	var sb strings.Builder
-	fmt.Fprintf(&sb, "let cmp%d () =\n  let a = %s\n  let b = %s\n  let c = %s\n", idx, a, b, cc)
+	fmt.Fprintf(&sb, "let cmp%d () =\n%s  let a = %s\n  let b = %s\n  let c = %s\n", idx, prelude, a, b, cc)
 	for _, l := range c10Labels {
 		x, y, op := "a", "b", "="
 		switch l {
@@ -474,6 +655,21 @@ func c10CmpSrc(idx int, a, b, cc string) string {
 }
 
 func c10GenGroupAt(r *Rng, env *c10Env, idx int, used map[string]*c10Type, depth int) *c10Group {
+	switch r.Intn(8) {
+	case 0, 1:
+		if g := c10GenDerived(r, env, idx, used, depth); g != nil {
+			return g
+		}
+	case 2:
+		// same case on both sides, equal leading components: a == fast path would panic here
+		t := Choose(r, env.holders)
+		g := &c10Group{Idx: idx, T: t, Kind: "holder"}
+		g.A = c10GenVal(r, t, depth)
+		g.B = c10Repath(r, g.A)
+		g.C = c10Mutate(r, g.A)
+		g.Src = c10CmpSrc(idx, "", g.A.fo(r, used, false), g.B.fo(r, used, false), g.C.fo(r, used, false))
+		return g
+	}
 	td := depth
 	if td < 0 {
 		td = 0
@@ -482,7 +678,7 @@ func c10GenGroupAt(r *Rng, env *c10Env, idx int, used map[string]*c10Type, depth
 	if r.Chance(1, 2) && len(env.named) > 0 {
 		t = Choose(r, env.named)
 	}
-	g := &c10Group{Idx: idx, T: t}
+	g := &c10Group{Idx: idx, T: t, Kind: "paths"}
 	g.A = c10GenVal(r, t, depth)
 	next := func(v *c10Val) *c10Val {
 		switch r.Intn(5) {
@@ -499,8 +695,97 @@ func c10GenGroupAt(r *Rng, env *c10Env, idx int, used map[string]*c10Type, depth
 	} else {
 		g.C = next(g.A)
 	}
-	g.Src = c10CmpSrc(idx, g.A.fo(r, used, false), g.B.fo(r, used, false), g.C.fo(r, used, false))
+	g.Src = c10CmpSrc(idx, "", g.A.fo(r, used, false), g.B.fo(r, used, false), g.C.fo(r, used, false))
 	return g
+}
+
+func c10SliceNodes(v *c10Val, out *[]*c10Val) {
+	if v.T.Kind == "slice" && len(v.Elems) > 0 {
+		*out = append(*out, v)
+	}
+	for _, e := range v.Elems {
+		c10SliceNodes(e, out)
+	}
+}
+
+// a deep copy of v in which the node target is replaced by repl
+func c10CloneReplace(v, target, repl *c10Val) *c10Val {
+	if v == target {
+		return repl
+	}
+	w := *v
+	w.Elems = nil
+	w.Path, w.Nil, w.Force, w.Ref = "", false, "", ""
+	for _, e := range v.Elems {
+		w.Elems = append(w.Elems, c10CloneReplace(e, target, repl))
+	}
+	return &w
+}
+
+// a holds a slice bound to the variable s0; b and c hold slices DERIVED from s0 (PopLast / Tail share
+// its backing array with another length, Take copies a prefix, PushLast onto PopLast rebuilds it)
+func c10GenDerived(r *Rng, env *c10Env, idx int, used map[string]*c10Type, depth int) *c10Group {
+	for try := 0; try < 6; try++ {
+		td := depth
+		if td < 1 {
+			td = 1
+		}
+		t := c10GenType(r, env, td)
+		if r.Chance(1, 2) {
+			t = Choose(r, env.named)
+		}
+		a0 := c10GenVal(r, t, depth)
+		var nodes []*c10Val
+		c10SliceNodes(a0, &nodes)
+		if len(nodes) == 0 {
+			continue
+		}
+		node := Choose(r, nodes)
+		n := len(node.Elems)
+		s0 := c10Repath(r, node)
+		if r.Bool() {
+			s0.Force = "literal"
+		}
+		prelude := "  let s0 = " + s0.fo(r, used, false) + "\n"
+		derive := func() *c10Val {
+			d := &c10Val{T: node.T}
+			cp := func(vs []*c10Val) []*c10Val {
+				var out []*c10Val
+				for _, e := range vs {
+					out = append(out, c10Repath(r, e))
+				}
+				return out
+			}
+			switch r.Intn(6) {
+			case 0, 1:
+				d.Elems, d.Ref = cp(node.Elems[:n-1]), "(slice.PopLast s0)"
+			case 2:
+				d.Elems, d.Ref = cp(node.Elems[1:]), "(slice.Tail s0)"
+			case 3:
+				k := r.Intn(n)
+				d.Elems, d.Ref, d.Nil = cp(node.Elems[:k]), fmt.Sprintf("(slice.Take %d s0)", k), k == 0
+			case 4:
+				if n >= 2 {
+					d.Elems, d.Ref = cp(node.Elems[:n-2]), "(slice.PopLast (slice.PopLast s0))"
+				} else {
+					d.Elems, d.Ref = cp(node.Elems[:n-1]), "(slice.PopLast s0)"
+				}
+			default:
+				last := c10Repath(r, node.Elems[n-1])
+				d.Elems, d.Ref = cp(node.Elems), "(slice.PushLast "+last.fo(r, used, true)+" (slice.PopLast s0))"
+			}
+			return d
+		}
+		g := &c10Group{Idx: idx, T: t, Kind: "derived"}
+		ref := c10Repath(r, node)
+		ref.Ref, ref.Nil = "s0", s0.Nil
+		g.A = c10CloneReplace(a0, node, ref)
+		g.B = c10CloneReplace(a0, node, derive())
+		g.C = c10CloneReplace(a0, node, derive())
+		g.Src = c10CmpSrc(idx, prelude, g.A.fo(r, used, false), g.B.fo(r, used, false), g.C.fo(r, used, false))
+		return g
+	}
+	return nil
 }
 
 func (g *c10Group) expected(label string) (x, y *c10Val, neg bool) {
@@ -530,7 +815,7 @@ type c10Prog struct {
 
 func (p *c10Prog) source(groups []*c10Group) string {
 	var b strings.Builder
-	b.WriteString("package main\n\nimport frt\nimport slice\n\n")
+	b.WriteString("package main\n\nimport frt\nimport slice\nimport dict\n\n")
 	b.WriteString(p.Env.decls())
 	b.WriteString(p.Env.predDecls(p.Used))
 	for _, g := range groups {
@@ -595,6 +880,7 @@ func c10CheckGroup(c *Ctx, p *c10Prog, g *c10Group, got map[string]string) {
 	key := fmt.Sprintf("%s|%s|%s|%s", g.T.fo(), g.A.sexp(), g.B.sexp(), g.C.sexp())
 	c.Eval(key, g.T.Kind != "int" && g.T.Kind != "string" && g.T.Kind != "bool")
 	c.Count("type=" + g.T.Kind)
+	c.Count("group=" + g.Kind)
 	c10CountFeatures(c, g.A)
 	c10CountFeatures(c, g.B)
 	if pl, ok := got["PANIC"]; ok {
@@ -658,9 +944,16 @@ func c10CheckGroup(c *Ctx, p *c10Prog, g *c10Group, got map[string]string) {
 func c10CountFeatures(c *Ctx, v *c10Val) {
 	switch v.T.Kind {
 	case "slice":
-		c.Count("slice_path=" + v.Path)
+		if v.Ref != "" {
+			c.Count("slice=derived_from_variable")
+		}
 		if len(v.Elems) == 0 {
 			c.Count("slice=empty")
+			if v.Nil {
+				c.Count("slice=empty_nil")
+			} else {
+				c.Count("slice=empty_non_nil")
+			}
 		}
 	case "record":
 		for _, f := range v.T.Fields {
@@ -721,6 +1014,9 @@ func runC10(c *Ctx) {
 		}
 	}
 	c.Lap("compare")
+	for k, n := range c10PathCount {
+		c.CountN("slice_path="+k, n)
+	}
 }
 
 // a batch did not transpile / compile / run to the end: find the groups responsible one level down
@@ -749,19 +1045,19 @@ func c10Corpus(env *c10Env, used map[string]*c10Type) []*c10Group {
 	var out []*c10Group
 	ti := &c10Type{Kind: "int"}
 	ts := &c10Type{Kind: "slice", Elems: []*c10Type{ti}}
-	paths := []string{"new", "take", "skip", "filter"}
+	paths := []string{"new", "take", "skip", "filter", "empty", "collectnone", "concat", "append", "map", "dictkeys", "sort", "mapi", "tail", "poplast", "dictvalues", "distinct"}
 	idx := 900000
 	r := NewRng(7)
 	mk := func(t *c10Type, a, b, cc *c10Val) {
-		g := &c10Group{Idx: idx, T: t, A: a, B: b, C: cc}
+		g := &c10Group{Idx: idx, T: t, A: a, B: b, C: cc, Kind: "corpus"}
 		idx++
-		g.Src = c10CmpSrc(g.Idx, a.fo(r, used, false), b.fo(r, used, false), cc.fo(r, used, false))
+		g.Src = c10CmpSrc(g.Idx, "", a.fo(r, used, false), b.fo(r, used, false), cc.fo(r, used, false))
 		out = append(out, g)
 	}
 	for i, pa := range paths {
 		pb := paths[(i+1)%len(paths)]
 		pc := paths[(i+2)%len(paths)]
-		mk(ts, &c10Val{T: ts, Path: pa}, &c10Val{T: ts, Path: pb}, &c10Val{T: ts, Path: pc})
+		mk(ts, &c10Val{T: ts, Force: pa}, &c10Val{T: ts, Force: pb}, &c10Val{T: ts, Force: pc})
 	}
 	for _, t := range env.named {
 		if t.Kind == "record" {
